@@ -17,6 +17,7 @@ def extract(ctx):
     # ---- _extend_children
     ec_shape = False
     ec_caught = []
+    seq_guard = []
     fn = find_def(core, '_extend_children')
     if fn is None:
         P.add('_extend_children not found')
@@ -25,7 +26,18 @@ def extract(ctx):
             outer = fn.body[0]
             assert isinstance(outer, ast.Try)
             body_src = [ast.unparse(s) for s in outer.body]
-            assert body_src == ["keys = get_handler('keys', item)", "get = get_handler('get', item)"]
+            assert body_src[:2] == ["keys = get_handler('keys', item)", "get = get_handler('get', item)"]
+            # the guard: obj-style keys on an instance of a sequence / set type -> iterate instead
+            assert len(outer.body) == 3
+            g = outer.body[2]
+            assert isinstance(g, ast.If) and isinstance(g.test, ast.BoolOp) and isinstance(g.test.op, ast.And)
+            assert ast.unparse(g.test.values[0]) == 'keys is _ObjStyleKeys.get_keys'
+            call = g.test.values[1]
+            assert (isinstance(call, ast.Call) and ast.unparse(call.func) == 'isinstance'
+                    and ast.unparse(call.args[0]) == 'item' and isinstance(call.args[1], ast.Tuple))
+            seq_guard = [ast.unparse(e) for e in call.args[1].elts]
+            assert len(g.body) == 1 and isinstance(g.body[0], ast.Raise)
+            assert ast.unparse(g.body[0].exc.func) == 'UnregisteredTarget' and not g.orelse
             assert len(outer.handlers) == 1
             ec_caught.append(('keys_get', exc_names(outer.handlers[0].type)))
             inner = outer.handlers[0].body[0]
@@ -53,6 +65,7 @@ def extract(ctx):
         except (AssertionError, IndexError, AttributeError) as e:
             P.add('_extend_children: unrecognised shape (%r)' % (e,))
             ec_caught = []
+            seq_guard = []
 
     # ---- the 'x' / 'X' branch of _t_eval
     star_shape = False
@@ -136,6 +149,7 @@ def extract(ctx):
     defs = [
         ('c14ExtendChildrenShape', 'Bool', bool(ec_shape)),
         ('c14ExtendChildrenCaught', 'List (String × List String)', ec_caught),
+        ('c14SeqGuardTypes', 'List String', seq_guard),
         ('c14StarBranchShape', 'Bool', bool(star_shape)),
         ('c14RecursionCaught', 'List String', rec_caught),
         ('c14StarsCountsBoth', 'Bool', bool(stars_ok)),
